@@ -535,9 +535,13 @@ Inductive lstmt :=
 
 (* r.stmt for the three statement kinds + loopStmtsBroken + the ForClause loop.
    events = the argument vectors of the __obs calls *)
+(* Runner.stop: a break or continue is unwinding to its loop *)
+Definition unwinding (st : state) : bool := (0 <? brk st) || (0 <? cnt st).
+
 Fixpoint exec_stmt (s : lstmt) (st : state) : res (state * list (list str)) :=
+  if unwinding st then Ok (st, []) else
   match s with
-  | LObs tag => Ok (set_last st 0, [[tag; itoa (last_exit st)]])
+  | LObs tag => Ok (set_last st 0, [[[]; tag; itoa (last_exit st)]])
   | LBrk cont args =>
       r <- bi_break cont args st ;;
       Ok (set_last (r_st r) (r_code r), [])
@@ -562,6 +566,7 @@ Fixpoint exec_stmt (s : lstmt) (st : state) : res (state * list (list str)) :=
         match k with
         | O => Ok (st, [])
         | S k' =>
+            if unwinding st then Ok (st, []) else       (* the loop head calls stop() *)
             let old := in_loop st in
             r <- stmts_broken old body (set_in_loop st true) ;;
             let '(st1, ev, bk) := r in
@@ -636,7 +641,7 @@ Definition run_call (c : call) (st : state) : res (state * list (list str) * opt
       let st1 := set_in_func (r_st r) (in_func st) in
       match r_flow r with
       | FReturn => Ok (set_last st1 0, [observe st1 (r_code r) []], None)
-      | _ => Ok (set_last st1 0, [[b "B"; itoa (r_code r)]; observe st1 0 []], None)
+      | _ => Ok (set_last st1 0, [[[]; b "B"; itoa (r_code r)]; observe st1 0 []], None)
       end
   | CExit args =>
       r <- bi_exit args st ;;
